@@ -11,7 +11,11 @@ pub fn run(args: &[String]) -> String {
             if r.contains("\"found\":true") { r } else { alloc_model::search(seed, 4000) }
         }
         "C02" | "C07" | "C31" | "C08" => crate::prog_find::search(pid),
-        "C12" | "C13" | "C14" | "C03" => alloc_model::search(seed, 4000),
+        "C13" => {
+            let r = crate::prog_find::search(pid);
+            if r.contains("\"found\":true") { r } else { alloc_model::search(seed, 4000) }
+        }
+        "C12" | "C14" | "C03" => alloc_model::search(seed, 4000),
         "C29" => serde_find::limit_search(seed),
         "C15" => serde_find::roundtrip_search(seed),
         "C16" | "C22" => {
